@@ -157,7 +157,7 @@ func authentication(name, hash string) (*Resp, error) {
 // https://gist.github.com/SirCmpwn/404223052379e82f91e6
 func authDigest(serverID string, sharedSecret, publicKey []byte) string {
 	h := sha1.New()
-	h.Write([]byte(serverID))
+	h.Write(latin1(serverID))
 	h.Write(sharedSecret)
 	h.Write(publicKey)
 	hash := h.Sum(nil)
@@ -207,4 +207,18 @@ func (r *Resp) Texture() (t user.Texture, err error) {
 
 	err = json.Unmarshal(texture, &t)
 	return
+}
+
+// latin1 returns the bytes the vanilla client and server hash for a server id: Java's
+// String.getBytes(ISO_8859_1), one byte per character and '?' for characters beyond U+00FF.
+func latin1(s string) []byte {
+	b := make([]byte, 0, len(s))
+	for _, r := range s {
+		if r < 256 {
+			b = append(b, byte(r))
+		} else {
+			b = append(b, '?')
+		}
+	}
+	return b
 }
